@@ -113,11 +113,11 @@ func skeleton(cmd string) string {
 // ---- hand-built planner inputs -------------------------------------------------
 
 type pcol struct {
-	name              string
-	notnull           bool
-	dk                int // 0 none, 1 literal, 2 CURRENT_TIMESTAMP, 3 raw expression
-	gen, stored       bool
-	hasIdx, hasFK     bool
+	name          string
+	notnull       bool
+	dk            int // 0 none, 1 literal, 2 CURRENT_TIMESTAMP, 3 raw expression
+	gen, stored   bool
+	hasIdx, hasFK bool
 }
 
 func (p pcol) build(t *schema.Table) *schema.Column {
@@ -212,11 +212,15 @@ func atoms() []atom {
 	}
 	add("addidx", func(t *schema.Table) schema.Change { return &schema.AddIndex{I: ix(t, "i_new")} })
 	add("dropidx", func(t *schema.Table) schema.Change { return &schema.DropIndex{I: ix(t, "i_old")} })
-	add("renidx", func(t *schema.Table) schema.Change { return &schema.RenameIndex{From: ix(t, "i_old"), To: ix(t, "i_ren")} })
+	add("renidx", func(t *schema.Table) schema.Change {
+		return &schema.RenameIndex{From: ix(t, "i_old"), To: ix(t, "i_ren")}
+	})
 	add("modidx", func(t *schema.Table) schema.Change {
 		return &schema.ModifyIndex{From: ix(t, "i_old"), To: ix(t, "i_old"), Change: schema.ChangeUnique}
 	})
-	add("addcheck", func(t *schema.Table) schema.Change { return &schema.AddCheck{C: &schema.Check{Name: "ck", Expr: "(1)"}} })
+	add("addcheck", func(t *schema.Table) schema.Change {
+		return &schema.AddCheck{C: &schema.Check{Name: "ck", Expr: "(1)"}}
+	})
 	add("droppk", func(t *schema.Table) schema.Change { return &schema.DropPrimaryKey{P: ix(t, "pk")} })
 	add("addattr", func(t *schema.Table) schema.Change { return &schema.AddAttr{A: &sqlite.Strict{}} })
 	return as
